@@ -1,5 +1,6 @@
 (* Correspondence cases for C20: what the real block queue / state-sync module did, compared with the models. *)
 From NG Require Import Common.Tactics Common.HarnessLib Sync.Queue Sync.Restore.
+From NG Require Sync.Ledger.
 Open Scope N_scope.
 
 Notation mkNode := Restore.mkNode.
@@ -114,7 +115,35 @@ Inductive case :=
 (* crash points of one synchronisation over a recording backend: stage in which the last durable batch was written
    (0 start, 1 init, 2 headers, 3 MPT, 4 blocks, 5 jump, 6 blocks after the jump, 7 shutdown) and whether the node restarted
    from that durable state finished the synchronisation with the source's state roots and storage, in lockstep *)
-| CCrash (points : list (N * bool)).
+| CCrash (points : list (N * bool))
+(* the real ledger under concurrent producers, step by step: lock held by the harness while the callers parked (0 none, 1 the
+   addition lock, 2 the state lock), height before, the calls with their results (producer: 0 AddBlock, 1 AddHeaders, 2 the
+   queue's drainer; index; 0 added, 1 already exists, 2 invalid index, 3 anything else), post-block callbacks in order *)
+| CConc (steps : list (N * N * list (N * N * N) * list N)).
+
+Fixpoint inserts {A} (x : A) (l : list A) : list (list A) :=
+  match l with [] => [[x]] | y :: r => (x :: l) :: map (cons y) (inserts x r) end.
+Fixpoint perms {A} (l : list A) : list (list A) :=
+  match l with [] => [[]] | x :: r => flat_map (inserts x) (perms r) end.
+
+(* Sync/Ledger.v: the calls of the step, executed atomically in the order [p], give exactly the observed results and
+   callbacks *)
+Definition conc_order_ok (h : N) (ap : list N) (p : list (N * N * N)) : bool :=
+  let bl := filter (fun c => negb (fst (fst c) =? 1)) p in
+  let '(l, rs) := Ledger.run unit (fun _ _ => tt) (Ledger.mkL unit h tt [] []) (map (fun c => snd (fst c)) bl) in
+  nlist_eqb (map Ledger.res_code rs) (map snd bl) && nlist_eqb (rev (Ledger.applied unit l)) ap
+  && nlist_eqb (Ledger.events unit l) (Ledger.applied unit l)
+  && forallb (fun c => if fst (fst c) =? 1 then snd c =? 0 else true) p.
+
+Fixpoint conc_steps (h : option N) (steps : list (N * N * list (N * N * N) * list N)) : bool :=
+  match steps with
+  | [] => true
+  | (_, h1, calls, ap) :: r =>
+      match h with Some x => x =? h1 | None => true end
+      && (length calls <=? 5)%nat
+      && existsb (conc_order_ok h1 ap) (perms calls)
+      && conc_steps (Some (h1 + N.of_nat (length ap))) r
+  end.
 
 Definition check_case (c : case) : N :=
   match c with
@@ -134,6 +163,7 @@ Definition check_case (c : case) : N :=
       if m && s then 0 else if s then 1 else 2
   | CQStress top hf napp =>
       if (hf =? top) && (napp =? top) then 0 else 2
+  | CConc steps => if conc_steps None steps then 0 else 2
   | CCrash points =>
       (* Sync/Crash.v crash_restart_converges: every prefix of the batches is a durable state the node recovers from *)
       if forallb (fun x => snd x) points then 0 else 2
